@@ -98,10 +98,19 @@ Theorem missing_message_always_crashes :
 Proof. exact ClientProofs.missing_message_always_crashes. Qed.
 Print Assumptions missing_message_always_crashes.
 
+Example missing_message_always_crashes_inhabited :
+  legal_failure OGetAttributes {| ri_op := None; ri_status := 1; ri_reason := Some 4; ri_msg := None; ri_payload := None |} 4 /\
+  message_read_unguarded OGetAttributes = true.
+Proof. split; [|reflexivity]. repeat split; auto. discriminate. Qed.
+
 Theorem check_failure_refuted :
   forall it rs, legal_failure OCheck it rs -> interpret OCheck (Decoded [it]) = RaiseOther.
 Proof. exact ClientProofs.check_failure_refuted. Qed.
 Print Assumptions check_failure_refuted.
+
+Example check_failure_refuted_inhabited :
+  legal_failure OCheck {| ri_op := Some 9; ri_status := 1; ri_reason := Some 5; ri_msg := Some [110; 111]; ri_payload := None |} 5.
+Proof. repeat split; auto. discriminate. Qed.
 
 (* ---- KMIPProxy: result objects / dictionaries carry exactly status, reason and message *)
 Theorem proxy_copies_exactly : forall o it rest, copies it (proxy_call o (Decoded (it :: rest))).
@@ -115,6 +124,11 @@ Theorem proxy_failure_reported_partial :
     proxy_call o (Decoded [it]) <> PExc.
 Proof. exact ClientProofs.proxy_failure_reported. Qed.
 Print Assumptions proxy_failure_reported_partial.
+
+Example proxy_failure_reported_partial_inhabited :
+  legal_failure OQuery {| ri_op := Some 24; ri_status := 1; ri_reason := Some 5; ri_msg := None; ri_payload := None |} 5 /\
+  OQuery <> OCheck /\ style_of OQuery <> SPayload.
+Proof. split; [|split; discriminate]. repeat split; auto. discriminate. Qed.
 
 Theorem proxy_discover_failure_refuted :
   legal_failure ODiscoverVersions discover_failure 5 /\
@@ -150,6 +164,16 @@ Theorem frame_delivered_intact :
     exists rest, read cs = FOk f rest /\ concat rest = more.
 Proof. exact FramingProofs.frame_delivered_intact. Qed.
 Print Assumptions frame_delivered_intact.
+
+Example frame_delivered_intact_inhabited :
+  let f := [66; 0; 123; 1; 0; 0; 0; 2; 9; 9] in
+  chunks_ok [[66; 0]; [123; 1; 0; 0; 0; 2; 9]; [9; 5; 5]] /\ is_frame f /\ bytes_ok (f ++ [5; 5]) = true /\
+  concat [[66; 0]; [123; 1; 0; 0; 0; 2; 9]; [9; 5; 5]] = f ++ [5; 5].
+Proof.
+  simpl. repeat split; try reflexivity.
+  - repeat constructor; discriminate.
+  - exists [66; 0; 123; 1; 0; 0; 0; 2], [9; 9]. repeat split.
+Qed.
 
 Theorem early_end_raises :
   forall cs f k, chunks_ok cs -> bytes_ok f = true -> is_frame f -> (k < length f)%nat -> concat cs = firstn k f ->
